@@ -26,7 +26,7 @@ from lib import queuecheck as Q
 
 T0 = 1700000000000000000
 SEC = 1000000000
-ROUTE_N = {"/a": 1, "/b": 2, "/c": 3, "/d": 4, "/m": 5, "/n": 6}
+ROUTE_N = {"/a": 1, "/b": 2, "/c": 3, "/d": 4, "/m": 5, "/n": 6, "/": 7}
 TARGET_N = {"pull": 1000, "http://t.example/1": 1001, "http://t.example/2": 1002}
 LABEL_N = {"app1": 1, "ep1": 2, "ep2": 3, "ghost": 77, "app2": 5}
 UNKNOWN_ROUTE = 99
@@ -84,7 +84,8 @@ CONFIGS = [
 
 
 def make_config(cf):
-    routes = ["/a", "/b", "/c", "/d"] if not cf["managed"] else ["/a", "/b", "/m", "/n"]
+    # "/" is an ordinary route path (the catch-all): a selector naming it must select its messages only
+    routes = ["/a", "/b", "/c", "/"] if not cf["managed"] else ["/a", "/b", "/m", "/n"]
     owners = {"/m": ("app1", "ep1"), "/n": ("app1", "ep2")} if cf["managed"] else {}
     lines = ['ingress { listen "%INGRESS%" }', 'pull_api {', '  listen "%PULL%"', '  auth token "raw:verif-pull"', '}',
              'admin_api {', '  listen "%ADMIN%"', '  prefix "/adm"']
@@ -104,7 +105,7 @@ def make_config(cf):
         if r in owners:
             lines.append('  application "%s"' % owners[r][0])
             lines.append('  endpoint_name "%s"' % owners[r][1])
-        lines.append('  pull { path "/pull%s" }' % r)
+        lines.append('  pull { path "/pull%s" }' % (r if r != "/" else "/root"))
         lines.append('}')
     intent = dict(cf, routes=routes, owners=owners, require_actor=cf.get("require_actor", False),
                   require_request_id=cf.get("require_request_id", False),
